@@ -22,7 +22,8 @@
    first-character set (FcPrefix).  *)
 From Verif Require Import Base.Prelude Model.CharClass Base.Utf8 Model.Tree Model.Spec Model.Analysis Model.Analysis2
      Proofs.AnalysisReach Proofs.AnalysisProofs Proofs.AnalysisPrefix Proofs.AnalysisFacts
-     Proofs.Analysis2Cls Proofs.Analysis2Ffcc Proofs.Analysis2Fixed Proofs.Analysis2Lal.
+     Proofs.Analysis2Cls Proofs.Analysis2Ffcc Proofs.Analysis2Fixed Proofs.Analysis2Lal Proofs.Analysis2Prefixes
+     Proofs.Utf8Proofs.
 
 (* ---- MinRequiredLength / MaxPossibleLength --------------------------------------------------- *)
 
@@ -379,6 +380,36 @@ Proof.
 Qed.
 Print Assumptions C04_ci_prefix_sound.
 
+(* findPrefixes (prefixanalyzer.go:428), case-sensitive (ic = false) and ignoreCase (ic = true): when it returns
+   the list ps, every successful attempt at p of a left-to-right pattern reads text that starts with one of
+   them -- what findLeadingStringsLeftToRight relies on.  Rune by rune (pm): equal; under ignoreCase a published
+   rune is either one that does not take part in case conversion (equal) or the lower-case ASCII letter of an
+   [Xx] set, matched by either case.  The model's prefixes are the rune lists written to the buffers; the
+   published Go strings are their UTF-8 encodings, which read back as the same runes (C04_prefix_runes) unless
+   the pattern contains a surrogate escape. *)
+Theorem C04_prefixes_sound :
+  forall e (cat_in : Z -> Z -> bool) (part_cc : Z -> bool) (sets : list cls) (ic : bool) fuel root p s' ps,
+    forallb cls_good_b sets = true ->
+    (forall id x, set_in e id x = char_in cat_in (set_cls sets id) x) ->
+    shape_ok false root = true -> no_ci_lit root = true -> 0 <= p <= tlen e ->
+    find_prefixes cat_in part_cc sets ic root = Some ps ->
+    attempt e fuel root p = Ok (Some s') ->
+    exists P, In P ps /\
+      forall i, 0 <= i < zlen P ->
+        p + i < tlen e /\ pm ic (nth (Z.to_nat i) P 0) (char_at e (p + i)) = true.
+Proof.
+  intros e cat_in part_cc sets ic fuel root p s' ps Hg Ha.
+  exact (a2_prefixes_sound e cat_in part_cc sets ic (sets_good_b cat_in sets Hg) Ha fuel root p s' ps).
+Qed.
+Print Assumptions C04_prefixes_sound.
+
+Theorem C04_prefix_runes :
+  forall P, forallb Utf8.valid_rune P = true -> runes_of (encode_string P) = P.
+Proof.
+  intros P H. unfold runes_of. rewrite (decode_encode_valid P H). rewrite map_map. cbn [fst]. apply map_id.
+Qed.
+Print Assumptions C04_prefix_runes.
+
 (* ---- non-vacuity ---- *)
 Definition ex2_sets : list cls := [ranges_cls [(98, 99)]].                       (* [bc] *)
 Definition ex2_cat : Z -> Z -> bool := fun _ _ => false.
@@ -436,4 +467,15 @@ Example C04_witness_literal_after_loop :
   attempt (ex2_env [98; 97; 100]) 10 ex2_lal 0 = Ok None /\
   find_lit_after_loop ex2_cat (fun _ => true) ex2_sets
     (NCapture 0 0 (-1) (NConcat 0 [NCharLoop CSet LGreedy 0 0 0 INF; NChar COne 0 98])) = Ok None.
+Proof. vm_compute. repeat split; reflexivity. Qed.
+
+(* (?:ab|cd)[bc] : the two prefixes "ab", "cd" *)
+Definition ex2_pref : node :=
+  NCapture 0 0 (-1) (NConcat 0 [NAlternate 0 [NMulti 0 [97; 98]; NMulti 0 [99; 100]]; NChar CSet 0 0]).
+Example C04_witness_prefixes :
+  shape_ok false ex2_pref = true /\ no_ci_lit ex2_pref = true /\
+  find_prefixes ex2_cat (fun _ => true) ex2_sets false ex2_pref = Some [[97; 98]; [99; 100]] /\
+  find_prefixes ex2_cat (fun _ => true) ex2_sets true ex2_pref = None /\
+  attempt (ex2_env [99; 100; 98]) 10 ex2_pref 0 = Ok (Some {| pos := 3; caps := [(0, [(0, 3)])] |}) /\
+  attempt (ex2_env [97; 100; 98]) 10 ex2_pref 0 = Ok None.
 Proof. vm_compute. repeat split; reflexivity. Qed.
